@@ -12,7 +12,10 @@ func init() {
 
 	// WHT transforms.
 	FTransformWHT = fTransformWHTSSE2
-	TransformWHT = transformWHTSSE2
+	// TransformWHT keeps the portable implementation: transformWHTSSE2 adds in
+	// 16-bit lanes, which wraps for large (but valid) Y2 coefficients where the
+	// format's arithmetic is done in 32 bits, so decoded pictures differed
+	// from the portable path and from other decoders.
 
 	// 16x16 luma prediction modes.
 	PredLuma16[0] = dc16SSE2
